@@ -91,6 +91,7 @@ class NamedScope(Scope):
     def __init__(self, name: str, resolver: "Resolver", parent: Scope | None = None):
         super().__init__(resolver, parent)
         self.name = name
+        self.forwarded: set[str] = set()
 
 
 low_rom_bus = Bus("low_rom_default_mapping")
@@ -169,13 +170,22 @@ class Resolver:
         if exports and isinstance(self.current_scope, NamedScope):
             scope = self.current_scope
             if scope.parent is not None:
-                exported = {f"{scope.name}.{k}": v for k, v in scope.symbols.items()}
-                scope.parent.symbols |= exported
-                scope.parent.pending -= exported.keys()
+                scope.parent.symbols |= {f"{scope.name}.{k}": v for k, v in scope.symbols.items()}
                 # what the scope has announced but not defined yet is pending under its exported name too:
-                # until then scope.name must not fall through to an outer scope of the same name.
-                for symbol in scope.pending:
-                    scope.parent.declare(f"{scope.name}.{symbol}")
+                # until then scope.name must not fall through to an outer scope of the same name. A scope may
+                # be written in several pieces: the exported name is settled when the last piece that announced
+                # it has given it its value, not when an earlier piece exports another value under that name.
+                for symbol in scope.announced:
+                    exported_name = f"{scope.name}.{symbol}"
+                    if symbol in scope.pending:
+                        if symbol not in scope.forwarded:
+                            scope.forwarded.add(symbol)
+                            scope.parent.declare(exported_name)
+                    elif symbol in scope.forwarded:
+                        scope.forwarded.discard(symbol)
+                        scope.parent.announced[exported_name] -= 1
+                        if scope.parent.announced[exported_name] <= 0:
+                            scope.parent.pending.discard(exported_name)
         if self.current_scope.parent is not None:
             self.current_scope = self.current_scope.parent
         else:
